@@ -407,7 +407,14 @@ def rule_ret3(ctx: Ctx) -> RuleResult:
             kept = (f"{tvar} in {NT}", False) in facts
             search_nodes = [(e, truth) for e, truth in _fact_nodes(ctx, f, a) if truth and any(
                 isinstance(x, ast.Attribute) and x.attr == "search_symbols" for x in ast.walk(e))]
-            if not kept or not search_nodes:
+            # the search test asks whether a symbol IS in the text
+            inverted = any(isinstance(c_, ast.Compare) and isinstance(c_.ops[0], ast.NotIn) and any(
+                isinstance(x, ast.Attribute) and x.attr == "search_symbols" for x in ast.walk(e_)) for e_, _ in search_nodes for c_ in ast.walk(e_))
+            if inverted:
+                res.violation([f.qualname, norm(a), "search test inverted"], "apply_query: the first fitting type is taken when NO search symbol is in "
+                                                                             "string?query: a concrete Sid gets a guessed type, a search is refused",
+                              f.relpath, a.lineno)
+            elif not kept or not search_nodes:
                 res.violation([f.qualname, norm(a), "guess"], "apply_query: with several fitting types the first one is taken although the old "
                                                               "type is among them or the Sid is not a search", f.relpath, a.lineno)
             else:
